@@ -113,6 +113,10 @@ class ConcApi(BaseApi):
 
     def int(self, name, lo, hi, draw=None):
         dlo, dhi = draw if draw else (lo, hi)
+        if draw and name in self.inputs and isinstance(self.inputs[name], int) and \
+                not (dlo - 8 * (dhi - dlo + 1) <= self.inputs[name] <= dhi + 8 * (dhi - dlo + 1)):
+            # a counter-model may pick an astronomically large size: replay a drawn one instead
+            del self.inputs[name]
         v = int(self._get(name, lambda: self.rng.randint(max(lo, dlo), min(hi, dhi))))
         if v < lo or v > hi:
             raise CaseSkip(name)
@@ -166,6 +170,10 @@ class ConcApi(BaseApi):
             raise CaseSkip(name)
         return v
 
+    def constrain_array(self, a, lo, hi):
+        if any(not (lo <= x < hi) for x in a):
+            raise CaseSkip("array element out of range")
+
     def index(self, name, n):
         """an index 0 <= k < n (Skolem point in symbolic mode)"""
         if n <= 0:
@@ -200,8 +208,10 @@ class ConcApi(BaseApi):
         units the result is stored in"""
         self.check(oid, self.eq(self.num(result) * S, self.fmod(x, y)))
 
-    def lemma(self, name, *args):
+    def lemma(self, name, fact):
         self.lemmas += 1
+        if not self.truth(fact):
+            self.failures.append({"obligation": "lemma/" + name, "note": "lemma instance false on concrete inputs"})
 
     def ite(self, c, a, b):
         return a if self.truth(c) else b
